@@ -222,9 +222,9 @@ fn token_of(p: &Pkt) -> Option<(Vec<u8>, Vec<u8>)> {
     Some((prefix, data))
 }
 
-fn cleanup_ok(c: &CleanupSpec) -> Option<bool> {
+fn cleanup_ok(c: &CleanupSpec, dangling_reported: bool) -> Option<bool> {
     // None = the statement is silent (the dangling reversal itself was refused)
-    if c.pending == PendingSpec::Dangling && c.cancel.end != EndSpec::Completion {
+    if dangling_reported && c.cancel.end != EndSpec::Completion {
         return None;
     }
     Some(matches!(c.eod.end, EndSpec::Completion | EndSpec::Abort(0xa0)))
@@ -529,7 +529,8 @@ pub fn judge_fault_free(plan: &ClientPlan, run: &ClientRun) -> Judged {
                     }
                     _ if own_completed => {
                         let needs_cleanup = open.is_empty();
-                        let c_ok = if needs_cleanup { cleanup_ok(cleanup) } else { Some(true) };
+                        let reported = reqs.iter().any(|r| r.dangling_reported.is_some());
+                        let c_ok = if needs_cleanup { cleanup_ok(cleanup, reported) } else { Some(true) };
                         match c_ok {
                             Some(true) => {
                                 let expect_ok = !is_commit || rev.status;
@@ -657,7 +658,7 @@ pub fn judge_fault_free(plan: &ClientPlan, run: &ClientRun) -> Judged {
                 }
                 if reaches_eod {
                     open.clear();
-                    match cleanup_ok(&out.cleanup) {
+                    match cleanup_ok(&out.cleanup, reqs.iter().any(|r| r.dangling_reported.is_some())) {
                         Some(true) => {
                             if !o.result.is_ok() {
                                 j.fail("C19", "not_ready_not_tolerated", "configure", format!("configure: everything completed (end-of-day {:?}) yet it returned {}", out.cleanup.eod.end, o.result.class()));
@@ -680,6 +681,15 @@ pub fn judge_fault_free(plan: &ClientPlan, run: &ClientRun) -> Judged {
                     } else if let Err(e) = identifies_code(&o.result, c, false) {
                         j.fail("C20", "abort_code", "configure", e);
                     }
+                }
+            }
+        }
+        // C19: end-of-day must never reach the terminal while a dangling pre-authorisation it
+        // reported (or tried to report) is still open
+        if matches!(op, OpSpec::Commit { .. } | OpSpec::Cancel { .. }) {
+            for r in reqs.iter().filter(|r| (r.frame[0], r.frame[1]) == (0x06, 0x50)) {
+                if !r.open_dangling_at_arrival.is_empty() {
+                    j.fail("C19", "eod_over_dangling", name, format!("end-of-day requested while the dangling pre-authorisation(s) {:?} are still open on the terminal", r.open_dangling_at_arrival));
                 }
             }
         }
@@ -783,6 +793,13 @@ pub fn judge_under_faults(plan: &ClientPlan, run: &ClientRun) -> Judged {
                 if pk.iter().any(|p| matches!(p.cf, (0x06, 0x23) | (0x06, 0x25) | (0x06, 0x50))) {
                     j.fail("C07", "begin_request", "begin", "begin sent a reversal or end-of-day");
                 }
+                if let Some(last) = reqs.iter().rev().find(|r| (r.frame[0], r.frame[1]) == (0x06, 0x22)) {
+                    if let (Some(c), Some(false)) = (last.abort_sent, last.completed) {
+                        if o.result.is_ok() {
+                            j.fail("C20", "abort_as_success", "begin", format!("the terminal aborted the (last) reservation with 0x{c:02x} but begin returned Ok"));
+                        }
+                    }
+                }
             }
             OpSpec::Commit { token, .. } | OpSpec::Cancel { token, .. } => {
                 let is_commit = matches!(op, OpSpec::Commit { .. });
@@ -838,6 +855,31 @@ pub fn judge_under_faults(plan: &ClientPlan, run: &ClientRun) -> Judged {
                 own_receipts.dedup();
                 if own_receipts.len() > 1 {
                     j.fail("C07", "reversal_receipt", name, format!("{name}({token:?}) used different receipt numbers across its attempts: {:?}", own_receipts));
+                }
+                for r in reqs.iter().filter(|r| (r.frame[0], r.frame[1]) == (0x06, 0x50)) {
+                    if !r.open_dangling_at_arrival.is_empty() {
+                        j.fail("C19", "eod_over_dangling", name, format!("end-of-day requested while the dangling pre-authorisation(s) {:?} are still open on the terminal", r.open_dangling_at_arrival));
+                    }
+                }
+                // the last exchange of the call's own command, as the terminal ended it
+                let own_last = reqs.iter().rev().find(|r| {
+                    r.pkt.as_ref().map(|p| p.cf == want_cf && p.get(0x87) != Some(&[0xff, 0xff][..]) && !p.get_bcd(0x87).map(|x| dangling.contains(&(x as u16))).unwrap_or(false)).unwrap_or(false)
+                });
+                if let Some(last) = own_last {
+                    if let (Some(c), Some(false)) = (last.abort_sent, last.completed) {
+                        // the abort packet was delivered (the exchange ran to its end) ...
+                        j.stats.hit("probe.reversal_aborted");
+                        if o.result.is_ok() {
+                            j.fail("C20", "abort_as_success", name, format!("the terminal aborted the (last) reversal of {name}({token:?}) with 0x{c:02x} but the call returned Ok"));
+                        }
+                    }
+                    if let (Some(true), Some(s), OpResult::Ok(OkVal::Summary { terminal_id, amount, trace_number, date, time })) = (last.completed, &last.status_sent, &o.result) {
+                        let same = *amount == s.amount && *trace_number == s.trace && num(date) == s.date && num(time) == s.time && num(terminal_id) == s.terminal_id;
+                        if !same {
+                            j.fail("C08", "summary", "commit", format!("summary (amount {:?}, trace {:?}, date {:?}, time {:?}) differs from the status information of the exchange the terminal completed (amount {:?}, trace {:?}, date {:?}, time {:?})", amount, trace_number, date, time, s.amount, s.trace, s.date, s.time));
+                        }
+                        j.stats.hit("probe.summary_compared");
+                    }
                 }
                 if !open.is_empty() && pk.iter().any(|p| p.cf == (0x06, 0x50) || (p.cf == (0x06, 0x23) && p.get(0x87) == Some(&[0xff, 0xff][..]))) {
                     j.fail("C19", "eod_over_open", name, format!("{} transaction(s) still open, yet {name} ran the clean-up / end-of-day", open.len()));
